@@ -44,20 +44,34 @@ Fixpoint scan (r : re) (s : bytes) (skip : nat) : list bytes :=
       end
   end.
 
-Definition piece_letters : bytes := Eval vm_compute in B "nNbBrRqQkK".
-Definition promo_letters : bytes := Eval vm_compute in B "nNbBrRqQ".
-Definition value_marks : bytes := Eval vm_compute in B ":/.?,-".
-Definition is_piece_letter (c : N) : bool := existsb (N.eqb c) piece_letters.
-Definition is_file_letter (c : N) := (97 <=? c) && (c <=? 104).
-Definition is_rank_digit (c : N) := (49 <=? c) && (c <=? 56).
-Definition is_x (c : N) := c =? 120.
-Definition is_promo_letter (c : N) : bool := existsb (N.eqb c) promo_letters.
+(* the patterns as data (what the translator tools/pgn_patterns.py regenerates from src/games.rs on every run,
+   gen/PgnPatterns.v; gen/PatternsOk.v proves the regenerated terms equal to the ones below) *)
+Inductive rsrc := SCls (rs : list (N * N)) | SLit (l : bytes) | SSeq (a b : rsrc) | SAlt (a b : rsrc) | SStar (rs : list (N * N)) | SOpt (a : rsrc).
+Definition in_ranges (rs : list (N * N)) (c : N) : bool := existsb (fun lh => (fst lh <=? c) && (c <=? snd lh)) rs.
+Fixpoint denote (s : rsrc) : re :=
+  match s with
+  | SCls rs => Cls (in_ranges rs)
+  | SLit l => Lit l
+  | SSeq a b => Seq (denote a) (denote b)
+  | SAlt a b => Alt (denote a) (denote b)
+  | SStar rs => StarC (in_ranges rs)
+  | SOpt a => Opt (denote a) end.
+Definition one (c : N) : N * N := (c, c).
+Definition cls_piece : list (N * N) := map one [110; 78; 98; 66; 114; 82; 113; 81; 107; 75].     (* [nNbBrRqQkK] *)
+Definition cls_file : list (N * N) := [(97, 104)].                                                (* [a-h] *)
+Definition cls_rank : list (N * N) := [(49, 56)].                                                 (* [1-8] *)
+Definition cls_x : list (N * N) := [one 120].                                                     (* x *)
+Definition cls_promo : list (N * N) := map one [110; 78; 98; 66; 114; 82; 113; 81].               (* [nNbBrRqQ] *)
 (* ( ( ([nNbBrRqQkK]*[a-h]*[1-8]*x*[a-h][1-8]) | (O-O(-O)?) ) (=[nNbBrRqQ])? \+?\#? ) *)
-Definition piece_move_re := Seq (StarC is_piece_letter) (Seq (StarC is_file_letter) (Seq (StarC is_rank_digit) (Seq (StarC is_x)
-                              (Seq (Cls is_file_letter) (Cls is_rank_digit))))).
-Definition castle_re := Seq (Lit (B "O-O")) (Opt (Lit (B "-O"))).
-Definition suffix_re := Seq (Opt (Seq (Lit (B "=")) (Cls is_promo_letter))) (Seq (Opt (Lit (B "+"))) (Opt (Lit (B "#")))).
-Definition moves_re := Seq (Alt piece_move_re castle_re) suffix_re.
+Definition piece_move_src := SSeq (SStar cls_piece) (SSeq (SStar cls_file) (SSeq (SStar cls_rank) (SSeq (SStar cls_x)
+                               (SSeq (SCls cls_file) (SCls cls_rank))))).
+Definition castle_src := SSeq (SLit [79; 45; 79]) (SOpt (SLit [45; 79])).
+Definition suffix_src := SSeq (SOpt (SSeq (SLit [61]) (SCls cls_promo))) (SSeq (SOpt (SLit [43])) (SOpt (SLit [35]))).
+Definition moves_src := SSeq (SAlt piece_move_src castle_src) suffix_src.
+Definition piece_move_re := denote piece_move_src.
+Definition castle_re := denote castle_src.
+Definition suffix_re := denote suffix_src.
+Definition moves_re := denote moves_src.
 Definition scan_moves (s : bytes) : list bytes := scan moves_re s 0.
 
 (* (\r?\n){2,} : number of consecutive line ends at the head of s, and what follows them *)
@@ -86,7 +100,8 @@ Definition moves_part (t : bytes) : option bytes :=
   | Some (_, r) => match find_blank r with Some (a, _) => Some a | None => Some r end end.
 
 (* (1-0)|(0-1)|(1/2-1/2), first match *)
-Definition result_re := Alt (Lit (B "1-0")) (Alt (Lit (B "0-1")) (Lit (B "1/2-1/2"))).
+Definition result_src := SAlt (SLit [49; 45; 48]) (SAlt (SLit [48; 45; 49]) (SLit [49; 47; 50; 45; 49; 47; 50])).
+Definition result_re := denote result_src.
 Definition scan_result (s : bytes) : option rtag :=
   match scan result_re s 0 with
   | [] => None
@@ -96,7 +111,11 @@ Definition scan_result (s : bytes) : option rtag :=
    blanks, word characters and : / . ? , - , blanks, a closing bracket   (ASCII restriction of \s \w \d) *)
 Definition is_space (c : N) := ((9 <=? c) && (c <=? 13)) || (c =? 32).
 Definition is_word (c : N) := ((48 <=? c) && (c <=? 57)) || ((65 <=? c) && (c <=? 90)) || ((97 <=? c) && (c <=? 122)) || (c =? 95).
+Definition value_marks : bytes := Eval vm_compute in B ":/.?,-".
 Definition is_val (c : N) := is_space c || is_word c || existsb (N.eqb c) value_marks.
+(* the source text of the two patterns that are modelled by direct functions (x-mode blanks and comments removed) *)
+Definition split_pattern_text : bytes := Eval vm_compute in B "(\r?\n){2,}".
+Definition tag_pattern_text : bytes := Eval vm_compute in B "\[(\s*[\w\d_]+)\s+""([\s\w\d:/\.\?,-]*)""\s*\]".
 Fixpoint span (p : N -> bool) (s : bytes) : bytes * bytes :=
   match s with
   | c :: t => if p c then let (a, b) := span p t in (c :: a, b) else ([], s)
